@@ -38,6 +38,9 @@ class State:
         self.default_cache = {} # evaluated default arguments (shared objects, as in CPython)
         self.trace = []         # file-write / print events
         self.fresh = 0          # per-path fresh-name counter (deterministic re-execution after forks)
+        self.inverses = {}      # function symbol name -> inverse (python callable on z3 terms): registered bijections (scatter stores by id)
+        self.files = {}         # path -> (start position, line_fn): symbolic text files that open(path) may read
+        self.qfacts = []        # quantified facts produced by library contracts (max/min/argsort …), instantiated by contracts
         self.array_facts = []   # (function symbol name, fn(args)->z3 Bool): facts about input arrays, instantiated per application
 
     def fork(self):
@@ -54,6 +57,9 @@ class State:
         s.trace = list(self.trace)
         s.fresh = self.fresh
         s.array_facts = self.array_facts
+        s.inverses = self.inverses
+        s.files = self.files
+        s.qfacts = self.qfacts
         return s
 
     # heap
